@@ -53,12 +53,16 @@ def gen_chunks(tier, rng):
   for size in (129, 200, 300):
     n = size + 3
     yield {"size": size, "fmt": "b", "order": None, "pad": 0, "xs": ints_for("b", n, rng), "tags": ["fmt=b", "bigsize"]}
-  # out-of-range integers (struct.error / OverflowError: the property says nothing, model and code must still agree)
-  for k in range(20 if tier == "quick" else 200):
-    fmt = rng.choice("bh")
+  # out-of-range integers / floats overflowing binary32 (struct.error / OverflowError / inf: the property says
+  # nothing, but model and code must still agree: "<" and ">" raise, native struct mode and array store inf)
+  for k in range(30 if tier == "quick" else 300):
+    fmt = rng.choice("bhf")
     size = rng.randrange(1, 5); n = rng.randrange(1, 9)
-    xs = [rng.choice([0, 1, 1 << (8 * FMTW[fmt] - 1), -(1 << (8 * FMTW[fmt] - 1)) - 1]) for _ in range(n)]
-    yield {"size": size, "fmt": fmt, "order": rng.choice([None, "<", ">"]), "pad": 0, "xs": xs, "tags": ["malformed"]}
+    if fmt == "f":
+      xs = [dbits(rng.choice([1.0, 1e39, -1e39, 3.5e38, 3.4028235677973366e+38, 0.5])) for _ in range(n)]; pad = dbits(0.0)
+    else:
+      xs = [rng.choice([0, 1, 1 << (8 * FMTW[fmt] - 1), -(1 << (8 * FMTW[fmt] - 1)) - 1]) for _ in range(n)]; pad = 0
+    yield {"size": size, "fmt": fmt, "order": rng.choice([None, "<", ">"]), "pad": pad, "xs": xs, "tags": ["malformed"]}
 
 
 def _val(fmt, v):
@@ -92,7 +96,7 @@ def _zl(l):
 def lit_chunks(c, o):
   def co(r):
     return "(CO %s %s)" % (L.lst([_zl(ch) for ch in r["chunks"]]), L.boolean(r["raised"] is not None))
-  order = "Big" if c["order"] == ">" else "Little"
+  order = {None: "Native", "<": "Little", ">": "Big"}[c["order"]]
   return "(CC %s F%s %s %s %s %s %s)" % (L.nat(c["size"]), c["fmt"], order, L.z(c["pad"]),
                                           L.lst([L.z(v) for v in c["xs"]]), co(o["struct"]), co(o["array"]))
 
